@@ -8,6 +8,7 @@ import tempfile
 from . import bootstrap  # noqa: F401
 from . import gen
 from .refgeom import metric
+from .battery import _norm_nbrs, _norm_edges, battery, battery_json
 from .refstore import RefStore
 from .twins import clone, compare, num_equal
 from .world_a import (SCRATCH_ROOT, SimClock, environment, run_session, InMemMap, SqliteMap)
@@ -779,24 +780,6 @@ def gen_C12(rng, tier):
     return with_clock(rng, d)
 
 
-def _norm_nbrs(rows, drop_self=None):
-    out = []
-    for l, p in rows:
-        if drop_self is not None and l == drop_self:
-            continue
-        out.append((l, (float(p[0]), float(p[1]))))
-    return sorted(out)
-
-
-def _norm_edges(rows, drop_selfloops=False):
-    out = []
-    for a, pa, b, pb in rows:
-        if drop_selfloops and a == b:
-            continue
-        out.append((a, (float(pa[0]), float(pa[1])), b, (float(pb[0]), float(pb[1]))))
-    return sorted(out)
-
-
 def compare_backends(sess, i):
     vs = []
     im, sq = sess.im, sess.sq
@@ -943,35 +926,42 @@ def gen_C18(rng, tier):
     d = {"kind": "B", "store": kind, "latlon": latlon, "mag": mag, "ops": ops, "battery": battery}
     if rng.random() < 0.3:
         d["crs"] = [rng.choice(["EPSG:4326", "EPSG:4258"]), rng.choice(["EPSG:3395", "EPSG:31370", "EPSG:3857"])]
+    if kind == "sqlite" and rng.random() < 0.12:
+        # the final reopen is also done by another interpreter with another hash seed; such histories always link
+        # parallel roads first (the links are stored under computed edge identifiers)
+        d["xproc"] = rng.randrange(1, 2 ** 31)
+        if not any(o["op"] == "connect_parallelroads" for o in ops):
+            pos = max((k for k, o in enumerate(ops) if o["op"] in ("add_edge", "add_edges", "reindex_edges", "commit")), default=len(ops) - 1)
+            ops.insert(pos + 1, {"op": "reindex_edges"})
+            ops.insert(pos + 2, {"op": "connect_parallelroads", "dist": 1e9})
     if kind == "pickle" and rng.random() < 0.4 and len(labels) >= 4:
         d["linked"] = [[[labels[0], labels[1]], [[labels[2], labels[3]]]]]
     return with_clock(rng, d)
 
 
-def battery(m, doc, labels, edges, geomcheck):
-    """Answers of a map to a fixed battery of questions (all made order-independent)."""
-    out = {}
-    out["use_latlon"] = bool(m.use_latlon)
-    # which metric does `distance` really use?
-    d = m.distance((10.0, 10.0), (10.0, 11.0))
-    out["metric_is_latlon"] = bool(d > 1000.0)
-    out["crs"] = (m.crs_lonlat, m.crs_xy)
-    out["size"] = m.size()
-    out["nodes"] = sorted((l, (float(p[0]), float(p[1]))) for l, p in m.all_nodes())
-    out["edges"] = _norm_edges(m.all_edges())
-    out["nbrs"] = [(l, _norm_nbrs(m.nodes_nbrto(l))) for l in labels]
-    out["enbrs"] = [(e, _norm_edges(m.edges_nbrto(e))) for e in edges]
-    q = []
-    for op in doc["battery"]:
-        loc = tuple(op["loc"])
-        if op["op"] == "q_nodes":
-            r = m.nodes_closeto(loc, max_dist=op["max_dist"], max_elmt=None)
-            q.append(sorted((round(x[0], 9), x[1]) for x in r))
-        else:
-            r = m.edges_closeto(loc, max_dist=op["max_dist"], max_elmt=None)
-            q.append(sorted((round(x[0], 9), x[1], x[3], round(x[6], 9)) for x in r))
-    out["spatial"] = q
-    return out
+def reopen_in_other_process(sess, doc, labels, edges, hashseed):
+    """Cross-process reopen: the stored file is copied and opened by a fresh interpreter with another
+    PYTHONHASHSEED; returns that interpreter's answers (or raises on a harness problem)."""
+    import json
+    import subprocess
+    import sys
+    fn = os.path.join(sess.scratch, "store.sqlite")
+    sess.gen_no += 1
+    d2 = os.path.join(sess.scratch, "xproc%d" % sess.gen_no)
+    os.makedirs(d2)
+    shutil.copy(fn, os.path.join(d2, "store.sqlite"))
+    spec = os.path.join(d2, "spec.json")
+    with open(spec, "w") as f:
+        json.dump({"doc": {"battery": doc["battery"]}, "labels": labels, "edges": [list(e) for e in edges]}, f)
+    env = dict(os.environ, PYTHONHASHSEED=str(hashseed), PYTHONWARNINGS="ignore")
+    r = subprocess.run([sys.executable, os.path.join(os.path.dirname(os.path.realpath(__file__)), "b_child.py"),
+                        os.path.join(d2, "store.sqlite"), spec], env=env, capture_output=True, text=True, timeout=120)
+    shutil.rmtree(d2, ignore_errors=True)
+    if r.returncode != 0:
+        if "leuvenmapmatching" in r.stderr and "/verif/" not in r.stderr.split("leuvenmapmatching")[-1][:40]:
+            return {"raised": r.stderr.strip().splitlines()[-1][:200]}
+        raise RuntimeError("cross-process child failed: " + r.stderr[-400:])
+    return json.loads(r.stdout)
 
 
 def diff_battery(a, b):
@@ -1089,6 +1079,18 @@ def eval_C18(doc):
                     if got_eidx != sorted(set(exp_eidx) & set(tuple(e) for e in st_after["edges"])):
                         vs.append(V("C18/sqlite/edge-index-after-%s" % ("crash" if k == "crash" else "reopen"),
                                     "expected %r got %r" % (exp_eidx[:6], got_eidx[:6]), i))
+                    if doc.get("xproc") is not None and i == len(doc["ops"]) - 1 and sess.ref.consistent() and labels:
+                        # the same file opened by another process (another hash seed) must answer like this one
+                        here = battery_json(m, doc, labels, [e for e in st_after["edges"]])
+                        there = reopen_in_other_process(sess, doc, labels, [e for e in st_after["edges"]], doc["xproc"])
+                        bump("fired_restart_in_other_process")
+                        if "raised" in there:
+                            vs.append(V("C18/sqlite/other-process/raises", there["raised"], i))
+                        else:
+                            dk = diff_battery(here, there)
+                            if dk:
+                                vs.append(V("C18/sqlite/other-process/answers-differ/%s" % dk,
+                                            "this process=%r other process=%r" % (str(here[dk])[:150], str(there[dk])[:150]), i))
                     if before is not None:
                         after = battery(m, doc, labels, [e for e in st_before["edges"]], None)
                         dk = diff_battery(before, after)
